@@ -108,7 +108,7 @@ What the seeded changes made me strengthen (each was a miss or an "undecided" be
 
 Harmless edits (`seeded/benign/*.diff`; `b*` written by me, `a_*` by sub-agents that were given the property texts and asked for behaviour-preserving refactors of one area each): %s. They compile, pass the suite, keep
 every property. `tools/benignfast.py` runs, per patch, the Verus unit, every witness suite and every Kani group against a scratch
-copy with the patch applied, with the verdict logic of `check`: none of the %d raises an alarm (last full run: 198 of 198 ok); the
+copy with the patch applied, with the verdict logic of `check`: none of the %d raises an alarm (last full run: 198 of 198 ok, the 12 of the last round run separately: 12 of 12 ok); the
 first 19 were also run through all 18 checks with `tools/benignrun.sh` (no VIOLATION line).
 Most verify completely (exit 0 everywhere); where an edit leaves the Verus subset or loses an anchor the
 properties of that function end *undecided* (exit 2), never as an alarm: `b10_drain_loop` (`Vec::drain`),
@@ -172,6 +172,10 @@ the machinery, never in the properties:
   each harmless and mutually incompatible. A modular contract has to pick an interface; to raise no alarm on either, the
   clause of `drop` is silent about the state "subscription without receiver" and the clause of `next()` allows leaving the
   release to `drop`; the price is that the two edits *together* (a real leak) would verify — recorded here as a known gap;
+* a sixth round (0 of 12) and a seventh (1 of 12): `Drop for DroppableStore` calling `stop()` only while the pool slot is still
+  filled — equivalent because the slot is emptied only by `stop()` (or the drop of the last handle) after `close()`, so
+  "pool gone" implies "sender gone" and `stop()` would do nothing: that store invariant is now the precondition A11 of the
+  contract of `drop` (the seeded changes C15-1..5 are still reported);
 * (found by review, not by an edit) the model pinned `action_executed`, `effect_executed`, `state_notified`,
   `subscriber_notified` and "the shutdown marker counts as received" → only the counters of the balance
   equations are modelled, the marker may or may not be booked.
